@@ -651,3 +651,58 @@ Q(name="e2_peer_params_cid_auth", props=["C14", "C04"], func=r"connection/mod\.r
   pre=hpp_pre, post=hpp_post,
   bounds="every stored orig_rem_cid / initial_dst_cid / retry_src_cid and every received initial_src_cid / original_dst_cid / retry_src_cid (Option discriminants, length byte and all 20 content bytes symbolic), both sides; set_peer_params and the error constructor opaque",
   replay=("conn_peer_params_cid_auth_native", lambda m: [dict(server=s, which=w) for s in (0, 1) for w in range(0, 9)]))
+
+
+# ------------------------------------------------------------------ C15: Connection::migrate - the new path starts challenged, the path to fall back to is never clobbered
+def _pd(c, name):
+    return c.field("connection/paths.rs", "PathData", name)
+
+
+def mig_pre(c):
+    # validity invariant of Option: the discriminant is 0 or 1
+    PATH = "*_1.%d" % c.field("connection/mod.rs", "Connection", "path")
+    return ule(c.inp(PATH + ".%d#discr" % _pd(c, "challenge"), I64), bv(1))
+
+
+def mig_post(c, p):
+    st = p.p.state
+    PATH = "*_1.%d" % c.field("connection/mod.rs", "Connection", "path")
+    PREV = "*_1.%d" % c.field("connection/mod.rs", "Connection", "prev_path")
+    ch, pend = _pd(c, "challenge"), _pd(c, "challenge_pending")
+    rd = lambda k, s: c.ex.read_key(st, k, s).t
+    conj = []
+    # exactly one new path object, built for the new remote address
+    mk = p.called(r"PathData::(new|from_previous)$")
+    if len(mk) != 1:
+        return "false"
+    # the new path carries a fresh challenge that is still to be sent
+    conj.append(eq(rd(PATH + ".%d#discr" % ch, I64), bv(1)))
+    conj.append(rd(PATH + ".%d" % pend, BOOL))
+    # the path-validation timer is armed
+    ts = [x for x in p.called(r"TimerTable::set$")]
+    if not ts:
+        return "false"
+    old_unchallenged = eq(c.inp(PATH + ".%d#discr" % ch, I64), bv(0))
+    if (PREV + "#discr") in st.store:
+        # the fallback path is replaced only by a path that is not itself awaiting validation, and what is
+        # stored is that old path (same counters), now challenged
+        conj.append(old_unchallenged)
+        conj.append(eq(st.store[PREV + "#discr"].t, bv(1)))
+        old = PREV + "@Some.0.1"
+        conj.append(eq(rd(old + ".%d#discr" % ch, I64), bv(1)))
+        conj.append(rd(old + ".%d" % pend, BOOL))
+        for f in ("total_sent", "total_recvd"):
+            conj.append(eq(rd(old + ".%d" % _pd(c, f), BV64), c.inp(PATH + ".%d" % _pd(c, f), BV64)))
+        conj.append(eq(rd(old + ".%d" % _pd(c, "validated"), BOOL), c.inp(PATH + ".%d" % _pd(c, "validated"), BOOL)))
+    else:
+        # an unvalidated path being abandoned never becomes the path to return to
+        conj.append(not_(old_unchallenged))
+    return and_(*conj)
+
+
+Q(name="e2_migrate", props=["C15"], func=r"connection/mod\.rs:245:1[^>]*>::migrate$",
+  pure=[r"PathData::new$", r"PathData::from_previous$", r"CidQueue::active$", r"Connection::pto$", r"into_inner$"],
+  allowed_panics=r"expect_failed|attempt to",
+  functions=["Connection::migrate"], pre=mig_pre, post=mig_post,
+  bounds="every connection state and remote address; PathData::{new,from_previous} (covered by path_from_previous), pto, the RNG, timer arithmetic opaque; shared-reference arguments are read-only",
+  replay=("conn_migrate_native", lambda m: [dict(old_challenged=a, old_pending=b, v4=v) for a in (0, 1) for b in (0, 1) for v in (0, 1)]))
